@@ -366,7 +366,9 @@ example : (∀ r ∈ [({ tsn := 0, len := 100 } : SRec), { tsn := 0xFFFFFFFE, le
 /-- bytes sent and not acknowledged (what occupies, or is on its way to, the peer's buffer) -/
 def outstanding (q : List SRec) : Nat := ((q.filter (fun r => !r.acked)).map (·.len)).sum
 
-/-- **window_rule_partial**: as long as the code's `flight_size` (after the retransmit phase)
+/-- **window_rule_partial** (a corollary of `closed_window_sends_nothing_new`, kept as the statement
+of *what part* of the window clause holds; its hypothesis `hcount` is exactly what the two recorded
+findings violate, so it says nothing new about the code): as long as the code's `flight_size` (after the retransmit phase)
 still counts every unacknowledged byte, no new DATA leaves once the unacknowledged bytes reach the
 advertised window. Partial: a T3 expiry sets `flight_size := 0` and a stale SACK with the newest
 cumulative TSN rewrites `peer_rwnd`; the two witnesses below show new data leaving beyond the
@@ -399,13 +401,6 @@ theorem t3_restarts_flight_witness :
     outstanding (transmit (t3Fire exFull 200 8) false 200).1.sentQ > exFull.peerRwnd := by
   decide
 
-/-- an overtaken SACK (cumulative TSN serially behind the newest one seen) leaves `peer_rwnd` alone
-(fix 5cfc04a) -/
-theorem overtaken_sack_keeps_window (s : Tx) (h : SackHist) (cum : UInt32) (arwnd : Nat)
-    (gaps : List (UInt16 × UInt16)) (now mx : Nat) (hold : tsnGt h.peerCumAck cum = true) :
-    (handleSackTx s h cum arwnd gaps now mx).1.peerRwnd = s.peerRwnd := by
-  simp [handleSackTx, hold, transmit]
-
 /-- **stale_sack_same_cum_witness**: two SACKs with the same cumulative TSN 9 — the receiver first
 said "window 9000", then (more data queued out of order) "window 0 + gap block". Delivered in the
 opposite order the older one is taken at face value: `peer_rwnd` goes back to 9000 and new data
@@ -422,52 +417,76 @@ theorem stale_sack_same_cum_witness :
 /-- what can happen to a sender: a `transmit()` (run loop, `send_data`), the T3 check, the TLP
 probe, an incoming SACK (any content) -/
 inductive SOp where
-  | transmit (now : Nat)
-  | timeout (now rto : Nat)
-  | tlp (now : Nat)
+  | transmit (sackOwed : Bool) (now : Nat)
+  | timeout (sackOwed : Bool) (now rto : Nat)
+  | tlp (sackOwed : Bool) (now : Nat)
   | sack (cum : UInt32) (arwnd : Nat) (gaps : List (UInt16 × UInt16)) (now : Nat)
 
 def sopStep (mx : Nat) (st : Tx × SackHist) : SOp → (Tx × SackHist) × List TxItem
-  | .transmit now => let r := transmit st.1 false now; ((r.1, st.2), r.2)
-  | .timeout now rto => let r := transmit (handleTimeout st.1 now rto mx) false now; ((r.1, st.2), r.2)
-  | .tlp now => let r := transmit (tlpProbe st.1 now) false now; ((r.1, st.2), r.2)
+  | .transmit so now => let r := transmit st.1 so now; ((r.1, st.2), r.2)
+  | .timeout so now rto => let r := transmit (handleTimeout st.1 now rto mx) so now; ((r.1, st.2), r.2)
+  | .tlp so now => let r := transmit (tlpProbe st.1 now) so now; ((r.1, st.2), r.2)
   | .sack cum arwnd gaps now => let r := handleSackTx st.1 st.2 cum arwnd gaps now mx; ((r.1, r.2.1), r.2.2)
 
 def sopRun (mx : Nat) (st : Tx × SackHist) : List SOp → List TxItem
   | [] => []
   | o :: rest => (sopStep mx st o).2 ++ sopRun mx (sopStep mx st o).1 rest
 
-/-- **quiescent_stays** (replaces the definitional `quiescent_when_all_acked`): from a state with
-nothing unacknowledged and nothing queued, *no sequence* of run-loop transmits, T3 checks, TLP
-probes and incoming SACKs of any content (stale, duplicated, with gap blocks) makes the sender put
-anything on the wire — no DATA, no retransmission, no SACK. (HEARTBEAT is outside this model; the
-trace oracle `quiescence:<CT>-after-everything-acknowledged` watches the real wire for INIT,
-COOKIE-ECHO, FORWARD-TSN, retransmitted DATA and unowed SACKs.) -/
+/-- how many of the events had a SACK owed to the peer (`sack_needed` set by received DATA) -/
+def sacksOwed : List SOp → Nat
+  | [] => 0
+  | .transmit so _ :: r => sacksOwed r + (if so then 1 else 0)
+  | .timeout so _ _ :: r => sacksOwed r + (if so then 1 else 0)
+  | .tlp so _ :: r => sacksOwed r + (if so then 1 else 0)
+  | .sack .. :: r => sacksOwed r
+
+/-- **quiescent_stays**: from a state with nothing unacknowledged and nothing queued, *no sequence*
+of run-loop transmits, T3 checks, TLP probes (each with or without a SACK owed to the peer) and
+incoming SACKs of any content (stale, duplicated, with gap blocks) makes the sender put a DATA chunk
+or a retransmission on the wire: everything emitted is a SACK, one per event at which one was owed.
+Outside this model, and watched only by the trace oracle
+`quiescence:<CT>-after-everything-acknowledged`: the PR tail of `transmit` (FORWARD-TSN re-armed by
+a SACK behind the advanced point), T1 (INIT / COOKIE-ECHO), HEARTBEAT, RE-CONFIG. -/
 theorem quiescent_stays (mx : Nat) (ops : List SOp) :
-    ∀ (st : Tx × SackHist), st.1.sentQ = [] → st.1.outQ = [] → sopRun mx st ops = [] := by
-  have tr : ∀ (s : Tx) (now : Nat), s.sentQ = [] → s.outQ = [] →
-      (transmit s false now).2 = [] ∧ (transmit s false now).1.sentQ = [] ∧ (transmit s false now).1.outQ = [] := by
-    intro s now h1 h2
-    simp [transmit, h1, h2, rexmitPhase, popBudget, assignTsn]
+    ∀ (st : Tx × SackHist), st.1.sentQ = [] → st.1.outQ = [] →
+      sopRun mx st ops = List.replicate (sacksOwed ops) TxItem.sack := by
+  have tr : ∀ (s : Tx) (so : Bool) (now : Nat), s.sentQ = [] → s.outQ = [] →
+      (transmit s so now).2 = (if so then [TxItem.sack] else []) ∧ (transmit s so now).1.sentQ = [] ∧ (transmit s so now).1.outQ = [] := by
+    intro s so now h1 h2
+    cases so <;> simp [transmit, h1, h2, rexmitPhase, popBudget, assignTsn]
   induction ops with
   | nil => intro st _ _; rfl
   | cons o rest ih =>
     intro st h1 h2
-    have key : (sopStep mx st o).2 = [] ∧ (sopStep mx st o).1.1.sentQ = [] ∧ (sopStep mx st o).1.1.outQ = [] := by
-      cases o with
-      | transmit now => exact tr st.1 now h1 h2
-      | timeout now rto =>
-        have : handleTimeout st.1 now rto mx = st.1 := by simp [handleTimeout, h1]
-        simp only [sopStep, this]; exact tr st.1 now h1 h2
-      | tlp now =>
-        have : tlpProbe st.1 now = st.1 := by simp [tlpProbe, tlpTail, h1]
-        simp only [sopStep, this]; exact tr st.1 now h1 h2
-      | sack cum arwnd gaps now =>
+    cases o with
+    | transmit so now =>
+      obtain ⟨k1, k2, k3⟩ := tr st.1 so now h1 h2
+      simp only [sopRun, sopStep, k1, sacksOwed]
+      rw [ih _ k2 k3]
+      cases so <;> simp [List.replicate_succ]
+    | timeout so now rto =>
+      have e : handleTimeout st.1 now rto mx = st.1 := by simp [handleTimeout, h1]
+      obtain ⟨k1, k2, k3⟩ := tr st.1 so now h1 h2
+      simp only [sopRun, sopStep, e, k1, sacksOwed]
+      rw [ih _ k2 k3]
+      cases so <;> simp [List.replicate_succ]
+    | tlp so now =>
+      have e : tlpProbe st.1 now = st.1 := by simp [tlpProbe, tlpTail, h1]
+      obtain ⟨k1, k2, k3⟩ := tr st.1 so now h1 h2
+      simp only [sopRun, sopStep, e, k1, sacksOwed]
+      rw [ih _ k2 k3]
+      cases so <;> simp [List.replicate_succ]
+    | sack cum arwnd gaps now =>
+      have tr0 : ∀ (s : Tx) (now : Nat), s.sentQ = [] → s.outQ = [] →
+          (transmit s false now).2 = [] ∧ (transmit s false now).1.sentQ = [] ∧ (transmit s false now).1.outQ = [] := by
+        intro s now a b; simpa using tr s false now a b
+      have key : (sopStep mx st (.sack cum arwnd gaps now)).2 = [] ∧ (sopStep mx st (.sack cum arwnd gaps now)).1.1.sentQ = [] ∧
+          (sopStep mx st (.sack cum arwnd gaps now)).1.1.outQ = [] := by
         simp only [sopStep, handleSackTx]
-        apply tr
+        apply tr0
         · simp only [h1]; exact applySack_nil cum gaps now _ mx
         · exact h2
-    simp only [sopRun, key.1, List.nil_append]
-    exact ih _ key.2.1 key.2.2
+      simp only [sopRun, key.1, sacksOwed, List.nil_append]
+      exact ih _ key.2.1 key.2.2
 
 end RtcModel.Theorems.C13
